@@ -329,6 +329,44 @@ func runCase(c Case, st *ev.Stats) error {
 			if len(states) == 0 {
 				continue
 			}
+			// after an injected drift: give the (asynchronous) resync time to finish before the call is issued
+			staleBase := false
+			if driftAt >= 0 {
+				same := func() bool {
+					for _, s := range tracked {
+						a, b := src.Tick(s), nm.Tick(s)
+						if (c.Shallow && a%2 != b%2) || (!c.Shallow && a != b) {
+							return false
+						}
+					}
+					return true
+				}
+				dl := time.Now().Add(500 * time.Millisecond)
+				for !same() && time.Now().Before(dl) {
+					time.Sleep(time.Millisecond)
+				}
+				staleBase = !same()
+			}
+			// checksumBlind: the wrong mirror and the source have the same 8-bit checksum (tick sum + queue tick + machine
+			// tick): no client can tell them apart from an update message
+			checksumBlind := func() bool {
+				sum := func(tick func(string) uint64, is func(string) bool) uint64 {
+					var n uint64
+					for _, s := range tracked {
+						if c.Shallow {
+							if is(s) {
+								n++
+							}
+						} else {
+							n += tick(s)
+						}
+					}
+					return n
+				}
+				a := arpc.Checksum(sum(src.Tick, src.Is1), src.QueueTick(), src.MachineTick())
+				b := arpc.Checksum(sum(nm.Tick, nm.Is1), nm.QueueTick(), nm.MachineTick())
+				return a == b
+			}
 			nTx := tr.Len()
 			var res am.Result
 			done := make(chan struct{})
@@ -373,6 +411,17 @@ func runCase(c Case, st *ev.Stats) error {
 				if res == am.Executed && own.Accepted && op.Step.Op == "add" {
 					for _, s := range states {
 						if has(tracked, s) && !nm.Is1(s) && src.Is1(s) {
+							if staleBase && checksumBlind() {
+								// the harness corrupted the mirror earlier (drift op: a read-modify-write of its clock that can also
+								// erase a push landing in between) and the mirror had not caught up when this call was issued (the
+								// resync after a drift detected by a PUSH is asynchronous; an undetected one - 8-bit checksum - stays) and
+								// the reply could not reveal it either (the wrong mirror has the checksum of the source): it was applied to
+								// a wrong base, not the library's doing. A drift the checksum CAN see must be healed before the call returns.
+								if st != nil {
+									st.Class("reply applied on an injected drift that was not healed yet (not asserted)")
+								}
+								continue
+							}
 							err := fmt.Errorf("NetworkMachine.Add(%v) returned Executed but %s is not active locally when the call returns (mirror %s, source %s)", states, s, nm.String(), src.String())
 							if held.Load() && kf.IsKnown("C09-reply-overtaken-by-push") {
 								if st != nil {
@@ -752,6 +801,11 @@ func TestRegressions(t *testing.T) {
 		{Schema: plain, NoSchema: true, Shallow: true, PushMs: 2, PaceMs: 30, Pre: []gen.Step{{Op: "add", States: []string{"S2"}}}, Ops: []Op{{Via: "cut"}, add2}},
 		{Schema: plain, NoSchema: false, Shallow: true, PushMs: 2, PaceMs: 30, Pre: []gen.Step{{Op: "add", States: []string{"S2"}}}, Ops: []Op{{Via: "cut"}, add2}},
 		{Schema: plain, NoSchema: false, Shallow: false, PushMs: 2, PaceMs: 30, Pre: []gen.Step{{Op: "add", States: []string{"S2"}}, {Op: "remove", States: []string{"S2"}}, {Op: "add", States: []string{"S1"}}}, Ops: []Op{{Via: "cut"}, add2, {Via: "relisten"}, add2}},
+		// a drift that only the reply to a client mutation reveals: the full sync it triggers has to finish before the call returns
+		{Schema: plain, PushMs: 0, Ops: []Op{{Via: "local", Step: gen.Step{Op: "add", States: []string{"S0"}}}, {Via: "drift"},
+			{Via: "client", Step: gen.Step{Op: "add", States: []string{"S1"}}}, {Via: "drift"}, {Via: "client", Step: gen.Step{Op: "add", States: []string{"S2"}}}}},
+		{Schema: plain, NoSchema: true, PushMs: 20, Ops: []Op{{Via: "local", Step: gen.Step{Op: "add", States: []string{"S0"}}}, {Via: "drift"},
+			{Via: "client", Step: gen.Step{Op: "add", States: []string{"S1"}}}}},
 	} {
 		st.Journal(map[string]any{"kind": "c09", "case": c})
 		if err := runCase(c, st); err != nil {
